@@ -2259,6 +2259,10 @@ int64_t ExpressionEvaluator::evaluate_function_call_impl(const ASTNode *node) {
                 } else if (actual_type == "char") {
                     char *arr = reinterpret_cast<char *>(ptr_value);
                     return static_cast<int64_t>(arr[index]);
+                } else if (actual_type == "bool" || actual_type == "tiny") {
+                    // 1バイト要素（sizeof(T) == 1）
+                    int8_t *arr = reinterpret_cast<int8_t *>(ptr_value);
+                    return static_cast<int64_t>(arr[index]);
                 } else if (actual_type == "string") {
                     // v0.13.4: 文字列配列のサポート
                     // メモリレイアウト: char*ポインタの配列
@@ -2708,6 +2712,11 @@ int64_t ExpressionEvaluator::evaluate_function_call_impl(const ASTNode *node) {
                 } else if (actual_type == "char") {
                     char *arr = reinterpret_cast<char *>(ptr_value);
                     arr[index] = static_cast<char>(value);
+                    return 0;
+                } else if (actual_type == "bool" || actual_type == "tiny") {
+                    // 1バイト要素（sizeof(T) == 1）
+                    int8_t *arr = reinterpret_cast<int8_t *>(ptr_value);
+                    arr[index] = static_cast<int8_t>(value);
                     return 0;
                 } else if (actual_type == "string") {
                     // v0.13.4: 文字列配列のサポート
